@@ -54,6 +54,14 @@ checks = {
    text="every proper prefix of every corpus image fed to the real reader (must be Err, never Ok, never panic), and every write call of the serializer failed / shortened / refused in turn plus a failing flush (writer must report or the sink must hold the complete image)",
    note="prefix cuts only (no bit flips); in-memory sink with injected faults",
    tech="exhaustive enumeration of crash points (all prefixes) and fault positions (all write calls x fault modes) on the real reader/writer"),
+ "C13": dict(engine="e4", cat="model_checking",
+   text="real session, host threads and a sibling session run under a controlled scheduler; every schedule with at most 2 (thorough 3) preemptions is executed; per execution: processed multiset = sent multiset, per-sender order preserved, no record of another macrostep between an event's dequeue and the end of its macrostep",
+   note="three scenarios (2 hosts x 2 events through the queue sender; host through the executor + sibling session through <send>; host through the executor while another host starts a session); scheduling points at sync operations only",
+   tech="stateless model checking of the implementation under a controlled scheduler (CHESS style): exhaustive enumeration of thread interleavings up to a preemption bound by re-execution"),
+ "C17": dict(engine="e4", cat="model_checking",
+   text="five topologies (invoke vs own delayed send, mutual send while invoking, shutdown vs send, session start vs send, cancel during invoke) explored over all schedules up to the preemption bound on the real code; a terminal state with a thread waiting for a mutex is reported with the wait-for cycle and a replayable schedule",
+   note="topologies of at most 3 sessions plus timers; preemption bound 1 (quick) / 2 (thorough); locks used by one thread only are not preemption points",
+   tech="stateless model checking of the implementation under a controlled scheduler (CHESS style): exhaustive enumeration of thread interleavings up to a preemption bound by re-execution"),
 }
 na_reason = {}
 m = {
@@ -63,7 +71,7 @@ m = {
    "guard": "rufsm_verif",
    "enable": "RUSTFLAGS=\"--cfg rufsm_verif -A unexpected_cfgs\" with CARGO_TARGET_DIR=/verif/target-hooks (checks of engine e4/e5 only)",
    "baseline_off_cmd": "cd /repo && cargo nextest run --workspace --no-fail-fast --offline || cargo test --workspace --no-fail-fast --offline",
-   "source_commits": [],
+   "source_commits": ["22d07fd"],
    "add_only": True},
  "engines": [
    {"name": "e1", "path": "harness/src/bin/e1.rs", "serves_properties": [p for p in checks if checks[p]['engine']=='e1'],
@@ -71,7 +79,9 @@ m = {
    {"name": "e2", "path": "harness/src/bin/e2.rs", "serves_properties": [p for p in checks if checks[p]['engine']=='e2'],
     "kind_free_text": "bounded-exhaustive enumeration of characters / tokens / expression trees against the real expression engine, process-isolated workers with crash and hang recovery"},
    {"name": "e3", "path": "harness/src/bin/e3.rs", "serves_properties": [p for p in checks if checks[p]['engine']=='e3'],
-    "kind_free_text": "bounded-exhaustive enumeration of document trees, lexical renderings, primitive values, image prefixes and write-fault positions against the real reader / serializer"}],
+    "kind_free_text": "bounded-exhaustive enumeration of document trees, lexical renderings, primitive values, image prefixes and write-fault positions against the real reader / serializer"},
+   {"name": "e4", "path": "harness/src/bin/e4.rs", "serves_properties": [p for p in checks if checks[p]['engine']=='e4'],
+    "kind_free_text": "controlled scheduler over real OS threads (harness/src/sched.rs) driving real rFSM sessions through the rufsm_verif hooks; iterative preemption bounding, virtual timer, deadlock detection, replayable schedules"}],
  "checks": [], "not_applicable": [], "notes": "see DESIGN.md; known findings in known_findings.json"}
 for p in props:
     if p in checks:
